@@ -259,6 +259,7 @@ class Report:
         self.counters: dict[str, int] = {}
         self.rules: list[str] = []
         self.xref: dict[str, Any] = {}
+        self.errors: list[str] = []
 
     def ob(self, rule: str, where: str, what: str, ok: bool = True, nontrivial: bool = True) -> Obligation:
         o = Obligation(rule, where, what, ok, nontrivial)
@@ -326,6 +327,7 @@ def finish(report: Report, prog: Program, tier: str, t0: float, explanation: str
         "notes": report.notes[:40],
         "cross_reference": report.xref,
         "findings": [f.to_json() for f in report.findings],
+        "analysis_errors": report.errors,
         "exhaustive": True,
     }
     if extra:
@@ -349,6 +351,8 @@ def finish(report: Report, prog: Program, tier: str, t0: float, explanation: str
         print(f"  analysed {k}: {v}")
     for f in listed:
         print(f"KNOWN-FINDING: property={report.prop} {f.key}")
+    for e in report.errors:
+        print(f"ANALYSIS-ERROR property={report.prop}: {e}")
     if new:
         rdir = os.path.join(VERIF, "replay")
         rpath = os.path.join(rdir, f"{report.prop}.json")
@@ -362,4 +366,4 @@ def finish(report: Report, prog: Program, tier: str, t0: float, explanation: str
                 print(f"      {w}")
         print(f"VIOLATION property={report.prop} replay={rpath}")
         return 1
-    return 0
+    return 2 if report.errors else 0
